@@ -56,7 +56,11 @@ package css
 //@   ensures[S]  result ==> l.r.pos == old(l.r.pos)+1 && old(l.r.buf[l.r.pos]) == c
 //@   ensures[S]  !result ==> l.r.pos == old(l.r.pos) && l.r.buf[l.r.pos] != c
 
+//@ orbit cmtEnd(s, p) stop (s[p] == '*' && s[p+1] == '/') || p >= len(s)-1 next p+1
 //@ func Lexer.consumeComment
+//@   ensures[F,C07] @comment-iff: result <==> old(l.r.buf[l.r.pos]) == '/' && old(l.r.buf[l.r.pos+1]) == '*'
+//@   ensures[F,C07] @comment-end: result ==> l.r.pos == cmtEnd(l.r.buf, old(l.r.pos)+2) + ite(l.r.buf[cmtEnd(l.r.buf, old(l.r.pos)+2)] == '*' && l.r.buf[cmtEnd(l.r.buf, old(l.r.pos)+2)+1] == '/', 2, 0)
+//@   loop 1 invariant[F] cmtEnd(l.r.buf, l.r.pos) == cmtEnd(l.r.buf, old(l.r.pos)+2)
 //@   preserves[S] lexStep(l)
 //@   ensures[S]  !result ==> l.r.pos == old(l.r.pos)
 //@   ensures[S]  result ==> l.r.pos >= old(l.r.pos)+2
@@ -111,12 +115,14 @@ package css
 //@   loop 1 decreases len(l.r.buf) - l.r.pos
 
 //@ func Lexer.consumeCustomVariableToken
+//@   ensures[F,C07] @custom-property: (result <==> old(l.r.buf[l.r.pos+1]) == '-' && identBody(l.r.buf, old(l.r.pos)) != 0) && (result ==> l.r.pos == nameEnd(l.r.buf, identBody(l.r.buf, old(l.r.pos))))
 //@   preserves[S] lexStep(l)
 //@   requires[S] l.r.buf[l.r.pos] != 0
 //@   ensures[S]  !result ==> l.r.pos == old(l.r.pos)
 //@   ensures[S]  result ==> l.r.pos > old(l.r.pos)
 
 //@ func Lexer.consumeAtKeywordToken
+//@   ensures[F,C07] @atkeyword: (result <==> identBody(l.r.buf, old(l.r.pos)+1) != 0) && (result ==> l.r.pos == nameEnd(l.r.buf, identBody(l.r.buf, old(l.r.pos)+1)))
 //@   preserves[S] lexStep(l)
 //@   requires[S] l.r.buf[l.r.pos] != 0
 //@   ensures[S]  !result ==> l.r.pos == old(l.r.pos)
@@ -218,7 +224,12 @@ package css
 //@   ensures[S]  result != ErrorToken && l.r.pos > old(l.r.pos)
 //@   loop 1 decreases len(l.r.buf) - l.r.pos
 
+// unquoted url body from p: stops at ')', at the end of input, or at a character that may not appear unescaped
+//@ pred urlBad(c) := c == '"' || c == '\'' || c == '(' || c == '\\' || c == ' ' || c <= 0x1F || c == 0x7F
+//@ orbit urlEnd(s, p) stop s[p] == ')' || p >= len(s)-1 || (urlBad(s[p]) && !isEsc(s, p)) next ite(s[p] == '\\', escEndC(s, p), p+1)
 //@ func Lexer.consumeUnquotedURL
+//@   ensures[F,C07] @url-body: l.r.pos == urlEnd(l.r.buf, old(l.r.pos)) && (result <==> (l.r.buf[l.r.pos] == ')' || l.r.pos >= len(l.r.buf)-1))
+//@   loop 1 invariant[F] urlEnd(l.r.buf, l.r.pos) == urlEnd(l.r.buf, old(l.r.pos))
 //@   preserves[S] lexStep(l)
 //@   loop 1 decreases len(l.r.buf) - l.r.pos
 
